@@ -12,7 +12,7 @@ use stateright::{Model, Property};
 use std::hash::{Hash, Hasher};
 use std::sync::atomic::{AtomicU64, Ordering};
 
-pub const KEYS: [&str; 9] = ["exp", "nbf", "iat", "iss", "a", "sub", "aud", "jti", "A"]; // custom keys `a` and `A` differ in case only
+pub const KEYS: [&str; 10] = ["exp", "nbf", "iat", "iss", "a", "sub", "aud", "jti", "A", ""]; // custom keys `a` and `A` differ in case only; "" is a legal custom key
 
 #[derive(Clone, Debug, PartialEq, Eq, Hash, Serialize, Deserialize)]
 pub enum Op {
@@ -36,9 +36,9 @@ pub fn val(k: usize, v: u8) -> String {
 #[derive(Clone, Debug, PartialEq, Eq, Hash, PartialOrd, Ord, Serialize, Deserialize)]
 pub struct M {
     /// how often each key was supplied (0, 1, 2+)
-    pub cnt: [u8; 9],
+    pub cnt: [u8; 10],
     /// which value came last
-    pub last: [u8; 9],
+    pub last: [u8; 10],
     pub ack: bool,
     /// exp was first supplied after the acknowledgement (the stated latitude of C17)
     pub exp_after_ack: bool,
@@ -49,7 +49,7 @@ pub struct M {
 
 impl M {
     pub fn init() -> M {
-        M { cnt: [0; 9], last: [0; 9], ack: false, exp_after_ack: false, footer: false, builds: 0 }
+        M { cnt: [0; 10], last: [0; 10], ack: false, exp_after_ack: false, footer: false, builds: 0 }
     }
     pub fn step(&mut self, op: &Op) {
         match op {
@@ -66,7 +66,7 @@ impl M {
         }
     }
     pub fn dups(&self) -> Vec<&'static str> {
-        (0..9).filter(|k| self.cnt[*k] >= 2).map(|k| KEYS[k]).collect()
+        (0..10).filter(|k| self.cnt[*k] >= 2).map(|k| KEYS[k]).collect()
     }
 }
 
@@ -230,8 +230,9 @@ fn judge_build(proto: Proto, pk: &[u8], t0_ns: i128, m: &M, out: &Out<String>, b
                 for d in ["exp", "iat", "nbf"] {
                     want.insert(d.to_string(), None); // None = a default: checked by instant under C13
                 }
-                for k in 0..9 {
-                    if m.cnt[k] > 0 {
+                for k in 0..10 {
+                    if m.cnt[k] > 0 && !KEYS[k].is_empty() {
+                        // (a claim with the empty key is ignored by the payload builder)
                         want.insert(KEYS[k].to_string(), Some(val(k, m.last[k])));
                     }
                 }
